@@ -18,7 +18,7 @@ def healthy_seq(rng, tags, cid, streams):
     for _ in range(rng.randrange(1, 5)):
         kind = rng.choice(["Echo", "Count", "Fail", "Ping", "Count"] + (["Sub"] if streams else []))
         frames.append(sg.call(kind, cid, tags.next(), v=rng.randrange(0, 1000), oneway=rng.random() < 0.15,
-                              more=(kind == "Sub")))
+                              more=rng.choice(sg.MORE) if kind == "Sub" else rng.choice([False, False, True])))
         if kind == "Sub":
             sevs += [["si", cid, rng.randrange(0, 99), rng.randrange(0, 3)] for _ in range(rng.randrange(0, 3))]
             sevs.append(["se", cid])
@@ -141,7 +141,7 @@ def gen_cases(ck, limit):
                     f, hids = ids[0], ids[1:]
                     pre = rng.randrange(0, 2)
                     frames = [sg.call("Echo", f, tags.next(), v=1) for _ in range(pre)]
-                    frames.append(sg.call("Sub", f, tags.next(), more=True))
+                    frames.append(sg.call("Sub", f, tags.next(), more=sg.MORE[(n_items + k + nh) % 3]))
                     frames += [sg.call("Echo", f, tags.next(), v=2) for _ in range(rng.randrange(0, 2))]
                     fseq = [["n", f], ["fw", f, pre + k], ["a", f, sg.wire(frames).hex()]]
                     fsev = [["si", f, 100 + j, 1] for j in range(n_items)] + [["se", f]]
